@@ -151,6 +151,13 @@ class KindInterp:
             if name in ("Time", f"{self.clsname}") and e.args:
                 args = self._args(e, env)
                 ok = args in ([INTQ, FRAC], [INF, INF])
+                if not ok and len(e.args) == 1 and isinstance(e.args[0], ast.Starred):
+                    # Time(*(A if c else B)): every alternative is judged on its own
+                    v = self.ev(e.args[0].value, env)
+                    if isinstance(v, tuple) and len(v) == 2 and v[0] == "JOIN" and all(isinstance(x, tuple) for x in v[1]):
+                        ok = all(list(x) in ([INTQ, FRAC], [INF, INF]) for x in v[1])
+                if not ok and TOP in repr(args):
+                    ok = None       # a kind the interpreter could not determine (e.g. the result of a helper function): undecided
                 self.rep.ob("R14.2-constructor", ok, self.loc(e), e,
                             f"Time must be built from (integer quotient, remainder in [0,1)) or (inf, inf); argument "
                             f"kinds {args}")
@@ -383,6 +390,23 @@ def analyse(src: Source) -> List[Report]:
                             rep.ob("R14.4-field-writer", n.name in ("__init__", "update"),
                                    Loc(TIME_FILE, a.lineno, f"Time.{n.name}"), a,
                                    "only the constructor and update may write the representation")
+    # every writer of the representation writes all of it: a field that the constructor derives from quotient and remainder (a cached
+    # key, a float sum) and that `update` leaves behind makes the comparisons answer for the time the object held before
+    def _self_stores(fn_: ast.AST) -> set:
+        return {t.attr for a in ast.walk(fn_) if isinstance(a, (ast.Assign, ast.AugAssign, ast.AnnAssign))
+                for t in (a.targets if isinstance(a, ast.Assign) else [a.target])
+                for t in ([t] if not isinstance(t, ast.Tuple) else t.elts)
+                if isinstance(t, ast.Attribute) and isinstance(t.value, ast.Name) and t.value.id == "self"}
+    inits = [n for n in cls.body if isinstance(n, ast.FunctionDef) and n.name == "__init__"]
+    if inits:
+        init_fields = _self_stores(inits[0])
+        for n in cls.body:
+            if isinstance(n, ast.FunctionDef) and n.name != "__init__":
+                written = _self_stores(n)
+                if written & init_fields:
+                    missing = sorted(init_fields - written)
+                    rep.ob("R14.4-writer-complete", not missing, Loc(TIME_FILE, n.lineno, f"Time.{n.name}"), n.name,
+                           f"`{n.name}` changes the time of the object but not {missing}, which the constructor sets from the same time")
     # ---- R14.4 ------------------------------------------------------------------------------------------------
     rep.unit("python_modules", len(prog.modules))
     for mi in prog.modules.values():
@@ -398,6 +422,34 @@ def analyse(src: Source) -> List[Report]:
             if isinstance(fnode, ast.Attribute) and fnode.attr in ("_quotient", "_remainder"):
                 rep.ob("R14.4-private", False, Loc(mi.file, fnode.lineno, _enclosing(mi.tree, fnode)), fnode,
                        "private representation of Time accessed outside time.py")
+        # the two halves of a time held by a C heap entry are never recombined by arithmetic on the Python side either (a dumped
+        # entry keeps both fields; `time_quotient + time_remainder` has the resolution of the quotient)
+        parent_of: Dict[int, ast.AST] = {}
+        for p_ in ast.walk(mi.tree):
+            for c_ in ast.iter_child_nodes(p_):
+                parent_of[id(c_)] = p_
+
+        def only_reported(n_: ast.AST) -> bool:
+            """the value only ends up in a log / error message (str(), format(), a logger call, an exception text)"""
+            x = parent_of.get(id(n_))
+            while x is not None and not isinstance(x, ast.stmt):
+                if isinstance(x, ast.Call) and ((isinstance(x.func, ast.Name) and x.func.id in ("str", "repr", "print", "format")) or
+                                                (isinstance(x.func, ast.Attribute) and x.func.attr in ("format", "debug", "info", "warning", "error",
+                                                                                                       "critical", "log"))):
+                    return True
+                if isinstance(x, (ast.JoinedStr, ast.FormattedValue)):
+                    return True
+                x = parent_of.get(id(x))
+            return False
+        for b_ in [n for n in ast.walk(mi.tree) if isinstance(n, (ast.BinOp, ast.AugAssign))]:
+            if only_reported(b_):
+                continue
+            parts = [x for x in ast.walk(b_) if isinstance(x, ast.Attribute) and x.attr in ("time_quotient", "time_remainder", "quotient", "remainder")]
+            inner = any(isinstance(y, ast.BinOp) and y is not b_ and any(x in list(ast.walk(y)) for x in parts) for y in ast.walk(b_))
+            if parts and not inner:
+                rep.ob("R14.4-pair-not-recombined", False, Loc(mi.file, b_.lineno, _enclosing(mi.tree, b_)), b_,
+                       "arithmetic on the quotient / remainder of a stored time outside time.py: the result is a single float with the "
+                       "resolution of the quotient; the pair must be passed on as it is")
         # reads of .quotient / .remainder : only as the ordered pair (x.quotient, x.remainder) in one call
         for call in [n for n in ast.walk(mi.tree) if isinstance(n, ast.Call)]:
             for i, a in enumerate(call.args):
@@ -531,4 +583,8 @@ MUTANTS += [
     Edit("heap sift-up compares the float sums", "jellyfysh/scheduler/heap_scheduler/heap.c",
          "    while (time_quotient < heap->heap_entries[parent_position].time_quotient ||\n              (time_quotient == heap->heap_entries[parent_position].time_quotient\n               && time_remainder < heap->heap_entries[parent_position].time_remainder)) {",
          "    while (time_quotient + time_remainder < heap->heap_entries[parent_position].time_quotient + heap->heap_entries[parent_position].time_remainder) {", "R14.1"),
+]
+MUTANTS += [
+    Edit("pending time recombined into one float", "jellyfysh/scheduler/heap_scheduler/heap_scheduler.py",
+         "Time(top.time_quotient, top.time_remainder)", "Time.from_float(top.time_quotient + top.time_remainder)", "R14.4"),
 ]
